@@ -155,7 +155,7 @@ def run(ctx):
     # crossover probabilities ASSIGNED FROM A GENETIC MAP (Haldane): the map's distances are -ln(1-2p)/2, so the declared
     # probabilities are the layout's; the matrix was built with other genetic positions and annotated with another map first
     # (a revised map must replace whatever positions the matrix held)
-    def map_annotated_parents(xoprob, first_label=1, kosambi=False):
+    def map_annotated_parents(xoprob, first_label=1, kosambi=False, shuffled=False):
         from pybrops.popgen.gmat.DensePhasedGenotypeMatrix import DensePhasedGenotypeMatrix
         from pybrops.popgen.gmap.StandardGeneticMap import StandardGeneticMap
         from pybrops.popgen.gmap.HaldaneMapFunction import HaldaneMapFunction
@@ -174,7 +174,13 @@ def run(ctx):
         pg.group_vrnt()
         first = StandardGeneticMap(vrnt_chrgrp=chrgrp, vrnt_phypos=phy, vrnt_genpos=phy.astype(float) * 1e-4)
         pg.interp_xoprob(first, HaldaneMapFunction())
-        revised = StandardGeneticMap(vrnt_chrgrp=chrgrp, vrnt_phypos=phy, vrnt_genpos=gen)
+        if shuffled:
+            # the map rows are supplied in arbitrary order and the map is built WITHOUT grouping: its spline is fitted to the rows
+            # as supplied
+            pm = list(range(Lx)); random.Random(Lx).shuffle(pm); pm = np.array(pm)
+            revised = StandardGeneticMap(vrnt_chrgrp=chrgrp[pm], vrnt_phypos=phy[pm], vrnt_genpos=gen[pm], auto_group=False)
+        else:
+            revised = StandardGeneticMap(vrnt_chrgrp=chrgrp, vrnt_phypos=phy, vrnt_genpos=gen)
         if kosambi:
             # Kosambi: r = tanh(2d)/2 for the same declared per-interval probabilities (crossovers in different intervals are
             # drawn independently whatever function assigned them, so non-adjacent pairs still compose by 1-2r)
@@ -190,7 +196,7 @@ def run(ctx):
         row = [0, 1, 2, 3][:npar]
         def runm(nn, seed, cls=cls, pkey=pkey, xoprob=xoprob, row=row, kos=kos):
             g = np.random.default_rng(seed)
-            pg = map_annotated_parents(xoprob, 0 if pkey.endswith("dh") else 1, kos)
+            pg = map_annotated_parents(xoprob, 0 if pkey.endswith("dh") else 1, kos, shuffled=(pkey == "2w"))
             out = cls(rng=g).mate(pg, np.array([row]), 1, nn, nself=0) if pkey.endswith("dh") else \
                 cls(rng=g).mate(pg, np.array([row]), nn, 1, nself=0)
             return source_matrix(pkey, out.mat, row)
